@@ -63,7 +63,10 @@ Definition t_run (T : tables) : list cmd -> tstate :=
   run tprog snd (tb_parse T) (tb_analyse T) (tb_eval T).
 Definition t_live (T : tables) : list cmd -> list cmd :=
   live tprog snd (tb_parse T) (tb_analyse T) (tb_eval T).
-Definition t_step_var (T : tables) (fixN2 fixN5 : bool) : tstate -> cmd -> tstate * result :=
-  step_var tprog snd (tb_parse T) (tb_analyse T) (tb_eval T) fixN2 fixN5.
-Definition t_run_var (T : tables) (fixN2 fixN5 : bool) : list cmd -> tstate :=
-  run_var tprog snd (tb_parse T) (tb_analyse T) (tb_eval T) fixN2 fixN5 init.
+Definition t_step_var (T : tables) (fixN2 fixN5 fixN32 : bool) : tstate -> cmd -> tstate * result :=
+  step_var tprog snd (tb_parse T) (tb_analyse T) (tb_eval T) fixN2 fixN5 fixN32.
+Definition t_run_var (T : tables) (fixN2 fixN5 fixN32 : bool) : list cmd -> tstate :=
+  run_var tprog snd (tb_parse T) (tb_analyse T) (tb_eval T) fixN2 fixN5 fixN32 init.
+(* the tree before N30 (sourceFragments keyed by pathset); None = nil dereference in Pop *)
+Definition t_run_keyed (T : tables) (cs : list cmd) : option (tstate * list path) :=
+  run_keyed tprog snd (tb_parse T) (tb_analyse T) (tb_eval T) (init, []) cs.
